@@ -76,12 +76,28 @@ static void run(vf::Ctx& ctx, const MatXd& A, Op& op, const char* opname, int cl
     if (ninit + nev > n) { ninit = std::max(nev, n - nev); }
     int gk = (int) r.range(0, 3);
     if (gk == 3 && decoupled.empty()) gk = 1;
+    long set_max = -1, set_corr = -1;
     auto info = [&]() {
-        return vf::J().kv("operator", opname).kv("matrix", MCLS[cls]).kv("n", n).kv("nev", nev).kv("initial_size", ninit).kv("max_size", nmax).kv("rule", rule_name(rule)).kv("tol", (double) tol)
+        return vf::J().kv("operator", opname).kv("matrix", MCLS[cls]).kv("n", n).kv("nev", nev).kv("initial_size", ninit).kv("max_size", nmax).kv("set_max_search_space_size", set_max).kv("set_correction_size", set_corr).kv("rule", rule_name(rule)).kv("tol", (double) tol)
             .kv("maxit", maxit).kv("guess", GUESS[gk]);
     };
     if (ninit < nev || ninit + nev > n) { ctx.count("skipped_no_legal_sizes"); ctx.count("evals"); return; }
+    // the sizes can also be set after construction (exploration cases): a maximal search space beyond n is legitimate (the default, 10 nev, exceeds n for
+    // small problems), as is any correction size with initial + correction <= n
+    if (tag.empty() && r.coin(0.35))
+    {
+        if (r.coin(0.7)) set_max = r.range(nmax, 2 * n + 3);
+        // correction sizes from nev upward (also above the initial size: no more corrections than Ritz pairs can be formed then). Fewer corrections than
+        // wanted pairs leave converged pairs without a direction of their own: the zero-correction defect of section 4.2, not explored here
+        if (r.coin(0.5)) set_corr = r.range(nev, std::max(nev, std::min(nev + 2, n - ninit)));
+        ctx.count("sizes_set_after_construction");
+    }
+    auto configure = [&](Spectra::DavidsonSymEigsSolver<Op>& s) {
+        if (set_max >= 0) s.set_max_search_space_size(set_max);
+        if (set_corr >= 0) s.set_correction_size(set_corr);
+    };
     Spectra::DavidsonSymEigsSolver<Op> es(op, nev, ninit, nmax);
+    configure(es);
     long ret = -1;
     std::string outcome = "ok";
     try
@@ -116,6 +132,7 @@ static void run(vf::Ctx& ctx, const MatXd& A, Op& op, const char* opname, int cl
         {
             const long r1 = (long) es.compute(rule2, maxit2, tol2);
             Spectra::DavidsonSymEigsSolver<Op> fresh(op, nev, ninit, nmax);
+            configure(fresh);
             const long r2 = (long) fresh.compute(rule2, maxit2, tol2);
             Eigen::VectorXd e1 = es.eigenvalues(), e2 = fresh.eigenvalues();
             MatXd X1 = es.eigenvectors(), X2 = fresh.eigenvectors();
